@@ -68,11 +68,11 @@ theorem C12_field_format (d t g r : Str) (h : checkField d t g = .ok r) :
   · cases h
   · next n dn decs hf =>
     refine ⟨n, dn, decs, hf, ?_⟩
-    by_cases hl : tooLarge d g n dn = true
-    · simp [hl] at h
-    · by_cases hd : decs ≤ 2
-      · simp [hl, hd] at h; exact ⟨h.symm, by simpa using hl⟩
+    by_cases hd : decs > 2
+    · simp [hd] at h
+    · by_cases hl : tooLarge d g n dn = true
       · simp [hl, hd] at h
+      · simp [hl, hd] at h; exact ⟨h.symm, by simpa using hl⟩
 
 /-- the record window, spelled out: accepted distances are at most 1.2 × the record -/
 theorem C12_field_window (d g : Str) (n dn rec : Nat) (h : tooLarge d g n dn = false) (hr : recordOf d g = some rec) :
